@@ -827,3 +827,22 @@ Theorem C13_write_biomes_translated : forall (bio_name : Z -> option (list N)) (
 Proof. exact write_biomes_interp. Qed.
 Print Assumptions C13_write_states_translated.
 Print Assumptions C13_write_biomes_translated.
+
+(* ==================== EXTRA WAVE: the light-collection loop of Chunk.WriteTo ==================== *)
+From GoMC Require Import Proofs.C13_skel_light.
+(* `for i, v := range c.Sections { if v.SkyLight != nil { mask.Set(i, true); append } ; same for BlockLight }`: the
+   translated body (BitSet.Set = b[i/64] |= 1 << (i%64), append) iterated over the sections from the two zeroed
+   masks of the translated length and the two empty lists gives EXACTLY the light data the model writes: the sky
+   mask and the block mask are mask_longs of the present flags (bit i of word i/64 for section i - the chunked-sum
+   argument), the arrays are the present arrays in section order, and light_of the result is light_val *)
+Theorem C13_light_collect_translated : forall (cont : Type) (secs : list (sect cont)), (List.length secs <= 4096)%nat ->
+  exists s, lc_loop cont 0 secs (mkLC (repeat 0%N (Z.to_nat c13_Chunk_WriteTo_mask_len_0))
+                                      (repeat 0%N (Z.to_nat c13_Chunk_WriteTo_mask_len_1)) [] []) = SOk s /\
+            lc_skym s = mask_longs (present (map s_sky secs)) /\ lc_blkm s = mask_longs (present (map s_blk secs)) /\
+            light_of s = light_val (map s_sky secs) (map s_blk secs).
+Proof. exact light_collect_translated. Qed.
+(* the arithmetic core: Set calls for the flagged indices, in order, build the packed mask *)
+Theorem C13_set_flags_mask : forall p, (List.length p <= 4096)%nat -> set_flags p 0 (repeat 0%N 64) = mask_longs p.
+Proof. exact set_flags_all. Qed.
+Print Assumptions C13_light_collect_translated.
+Print Assumptions C13_set_flags_mask.
